@@ -174,7 +174,8 @@ class SingleJobShopGraphEnv(gym.Env):
             dispatcher=self.dispatcher, **reward_function_config.kwargs
         )
         self.action_space = gym.spaces.MultiDiscrete(
-            [self.instance.num_jobs, self.instance.num_machines], start=[0, -1]
+            [self.instance.num_jobs, self.instance.num_machines + 1],
+            start=[0, -1],
         )
         self.observation_space: gym.spaces.Dict = self._get_observation_space()
         self.render_mode = render_mode
